@@ -1445,7 +1445,7 @@ func (f *formatter) ExprUnaryMinus(n *ast.ExprUnaryMinus) {
 	n.MinusTkn = f.newToken('-', []byte("-"))
 
 	// "- -$a" and "- --$a" must not become "--$a" and "---$a"
-	switch n.Expr.(type) {
+	switch leftOfPow(n.Expr).(type) {
 	case *ast.ExprUnaryMinus, *ast.ExprPreDec:
 		f.addFreeFloating(token.T_WHITESPACE, []byte(" "))
 	}
@@ -1453,11 +1453,23 @@ func (f *formatter) ExprUnaryMinus(n *ast.ExprUnaryMinus) {
 	n.Expr.Accept(f)
 }
 
+// leftOfPow returns the expression whose first token follows a unary sign directly: the operand itself or, as `**`
+// binds tighter than the sign, the leftmost operand of a power expression ("- --$a ** 2")
+func leftOfPow(n ast.Vertex) ast.Vertex {
+	for {
+		p, ok := n.(*ast.ExprBinaryPow)
+		if !ok {
+			return n
+		}
+		n = p.Left
+	}
+}
+
 func (f *formatter) ExprUnaryPlus(n *ast.ExprUnaryPlus) {
 	n.PlusTkn = f.newToken('+', []byte("+"))
 
 	// "+ +$a" and "+ ++$a" must not become "++$a" and "+++$a"
-	switch n.Expr.(type) {
+	switch leftOfPow(n.Expr).(type) {
 	case *ast.ExprUnaryPlus, *ast.ExprPreInc:
 		f.addFreeFloating(token.T_WHITESPACE, []byte(" "))
 	}
